@@ -146,6 +146,9 @@ func atoiStrict(s string) (int, bool) {
 
 func refTripID(d *gtfsrt.TripDescriptor, tz *time.Location) gtfs.TripID {
 	var id gtfs.TripID
+	if tz == nil {
+		tz = time.UTC
+	}
 	if d.TripId != nil {
 		id.ID = *d.TripId
 	}
